@@ -23,6 +23,8 @@ EXTRA.update({'C16_17': ['C09'], 'C17_17': ['C03'], 'C17_18': ['C20'], 'C11_17':
 EXTRA.update({'C02_17': ['C07'], 'C02_18': ['C10'], 'C03_17': ['C06'], 'C03_18': ['C20', 'C17'], 'C05_17': ['C01'], 'C05_18': ['C08', 'C09'],
               'C06_17': ['C04', 'C20'], 'C06_18': ['C09', 'C11'], 'C07_18': ['C14'], 'C08_17': ['C09'], 'C13_17': ['C19'], 'C13_18': ['C10'],
               'C15_17': ['C10'], 'C20_17': ['C06', 'C04'], 'C20_18': ['C16']})
+EXTRA.update({'C02_19': ['C04'], 'C02_20': ['C06'], 'C07_19': ['C13'], 'C08_20': ['C01'], 'C13_19': ['C01'], 'C13_20': ['C05'], 'C15_19': ['C05'],
+              'C15_20': ['C14'], 'C18_19': ['C13'], 'C19_19': ['C04', 'C11'], 'C19_20': ['C04', 'C11'], 'C20_19': ['C05'], 'C20_20': ['C17']})
 only = sys.argv[1:]
 for patch in sorted(glob.glob('/tmp/mut/C??_*.patch.diff')):
     mid = os.path.basename(patch)[:-len('.patch.diff')]
